@@ -69,7 +69,7 @@ func NewInverseWishartDistribution(nu Scalar, s Matrix) (*InverseWishartDistribu
   z.Sub(z, t1.Mlgamma(t1.Div(nu, ConstFloat64(2.0)), n))                                // Gamma_n(nu/2)
 
   result := InverseWishartDistribution{
-    Nu  : nu,
+    Nu  : nu.CloneScalar(),
     S   : s,
     SDet: sDet,
     d   : d,
